@@ -307,7 +307,12 @@ def main(tier, seed):
             if w:
                 extra.append(w)
                 break
-    return lib.conclude_diff(PID, tier, seed, t0, proof, results, check_impl, features,
+    # the calendar layer under every departure / arrival time: Cal.v against rapid_time (family `time`)
+    from . import timecorr
+    tr = timecorr.cone_family(PID, tier, seed)
+    tdiffs = [({"time": True, "seed": seed, "family": "time"}, x) for x in tr["diffs"]]
+    return lib.conclude_diff(PID, tier, seed, t0, proof, results, check_impl, features, extra_diffs=tdiffs,
+                             extra_cov={"calendar_correspondence": {k: v for k, v in tr.items() if k != "diffs"}},
                              strip_model_prefixes=("wf ", "maxvehicles ", "ovf ", "netok ", "valid "),
                              model_flags={"wf true": True, "ovf true": True, "netok true": True, "valid true": True},
                              diff_to_failure=diff_to_failure, extra_violations_inst=extra,
